@@ -43,7 +43,7 @@ func FuzzExprRD(f *testing.F) {
 		if out.rejected != "" {
 			return
 		}
-		for _, cls := range knownClassesOf([]influxql.Expr{out.tree}) {
+		for _, cls := range knownClassesOfR([]influxql.Expr{out.tree}, false) {
 			if !classIncluded(cls) {
 				return
 			}
